@@ -24,7 +24,7 @@ SPEC = {
     "onset_wrong_groups": "TEMPORAL_TAG_ERROR", "onset_tag_outside": "TEMPORAL_TAG_ERROR",
     "duration_other_tags": "TEMPORAL_TAG_ERROR", "duration_wrong_groups": "TEMPORAL_TAG_ERROR",
     "top_level_copy": "TAG_GROUP_ERROR", "tag_group_copy": "TAG_GROUP_ERROR",
-    "repeat_nested": "TAG_EXPRESSION_REPEATED",
+    "repeat_nested": "TAG_EXPRESSION_REPEATED", "empty_groups_repeated": "TAG_EMPTY",
 }
 
 # definitions handed to the DefinitionDict
@@ -379,7 +379,7 @@ STRUCT_RULES = ["unknown", "ext_term", "ext_forbidden", "placeholder", "require_
                 "tag_group", "top_level", "multi_top", "unique_dup", "repeat_tag", "repeat_group",
                 "repeat_group_permuted", "prefix", "tagchar", "empty_group", "char_in_text_value",
                 "onset_no_def", "onset_too_many_defs", "onset_wrong_groups", "onset_tag_outside",
-                "duration_other_tags", "duration_wrong_groups", "top_level_copy", "tag_group_copy", "repeat_nested"]
+                "duration_other_tags", "duration_wrong_groups", "top_level_copy", "tag_group_copy", "repeat_nested", "empty_groups_repeated"]
 TEXT_RULES = ["char", "tilde", "curly", "paren", "empty", "missing_comma", "slash"]
 
 
@@ -517,6 +517,18 @@ def mutate(rng, V, tree, rule, ph, modern):
             return None
         a, b = rng.sample(V.temporal, 2)
         t.insert(rng.randint(0, len(t)), ["Def/OnDef2", a, b])
+        return render(t, rng)
+    if rule == "empty_groups_repeated":
+        # two equal groups that hold nothing but empty groups (possibly next to tags): every empty group is TAG_EMPTY and
+        # validation must not raise (IndexError before fix commit 3e47c8c)
+        a = rng.choice(V.plain)["short"]
+        g = rng.choice([[], [[]], [[], []], [[], [a]], [[[]], []]])
+        g2 = deep(g)
+        if len(g2) > 1 and rng.random() < 0.5:
+            g2 = g2[::-1]
+        tgt = get(t, rng.choice(groups)) if groups and rng.random() < 0.4 else t
+        tgt.insert(rng.randint(0, len(tgt)), g)
+        tgt.insert(rng.randint(0, len(tgt)), g2)
         return render(t, rng)
     if rule == "repeat_nested":
         # a planted repeat (tag or group, copy possibly reordered / respelled) inside a fresh group that is wrapped
